@@ -209,7 +209,35 @@ func runTamperCase(r *Run, bases *baseStates, tc *tamperCase) {
 		}
 		return n
 	}
+	var loadPlan func(c *Call) Decision
 	switch tc.When {
+	case "during-load":
+		// storage answers differently from one read of an object to the next
+		// while the server starts: the first TamperOp's object is served altered
+		// from the k-th fetch on (or only at the first fetch)
+		shadow := &LogEnv{R: env.R, W: env.W.Clone(), Name: env.Name, Key: env.Key, LogID: env.LogID}
+		op := &tc.Ops[0]
+		if !applyTamper(shadow, rng, op) {
+			r.Count("tamper_not_applicable", 1)
+			return
+		}
+		altered, present := shadow.W.Get(op.Key)
+		key, mode, nfetch := op.Key, op.Arg%3, 0
+		loadPlan = func(c *Call) Decision {
+			if c.Kind != OpFetch || c.Key != key {
+				return decideOK
+			}
+			nfetch++
+			hit := (mode == 0) || (mode == 1 && nfetch >= 2) || (mode == 2 && nfetch == 1)
+			if !hit {
+				return decideOK
+			}
+			r.Count("fetches_answered_with_altered_object", 1)
+			if !present {
+				return Decision{Err: fmt.Errorf("%w: %q", errNotFound, key)}
+			}
+			return Decision{Apply: true, FetchData: altered, HasFetchData: true}
+		}
 	case "after-crash":
 		li, err = env.Load("A", nil)
 		if err != nil {
@@ -249,7 +277,7 @@ func runTamperCase(r *Run, bases *baseStates, tc *tamperCase) {
 	for round := 0; round < 3; round++ {
 		if li == nil {
 			simNow.Add(5)
-			li, err = env.Load(fmt.Sprint("L", round), nil)
+			li, err = env.Load(fmt.Sprint("L", round), loadPlan)
 			if err != nil {
 				outcome = "load-refused"
 				li = nil
@@ -357,6 +385,19 @@ func TestC08Tamper(t *testing.T) {
 						when = "live"
 					}
 					cases = append(cases, &tamperCase{Start: start, When: when, Crash: cr, Ops: []TamperOp{op}, Pool: pickOne(rng, []int{0, 1, 3, 258})})
+				}
+			}
+		}
+	}
+	// objects that change between two reads during start-up
+	for _, start := range starts {
+		for _, class := range []string{"checkpoint", "hash-edge", "hash-edge", "hash", "data", "staging", "roots"} {
+			for _, kind := range []string{"flip", "flip-payload", "rollback", "truncate", "delete", "swap"} {
+				if !valid(class, kind) {
+					continue
+				}
+				for rep := 0; rep < pick(1, 4); rep++ {
+					cases = append(cases, &tamperCase{Start: start, When: "during-load", Ops: []TamperOp{{Class: class, Kind: kind, Pick: rng.Intn(1000), Arg: rng.Intn(100000)}}, Pool: pickOne(rng, []int{1, 2, 3, 258})})
 				}
 			}
 		}
